@@ -99,6 +99,16 @@ func clashPair(r *wvlib.Rng, shape string) (*wvlib.Build, *wvlib.Build) {
 	case "file->symlink-file-renamed": // g8: a file becomes a symlink, the file itself is renamed elsewhere
 		old.Entries = []wvlib.BEntry{f("a.bin", x), f("keep.bin", z)}
 		nw.Entries = []wvlib.BEntry{{Path: "a.bin", Kind: 'l', Dest: "keep.bin"}, f("c.bin", x), f("keep.bin", z)}
+	// ---- the same with NESTED content below the replaced directory
+	case "dir->file-renamed-nested": // y.bin renamed onto d, while d/sub/x.bin (two levels down) is renamed elsewhere
+		old.Entries = []wvlib.BEntry{f("d/sub/x.bin", x), f("d/top.bin", z), f("y.bin", y)}
+		nw.Entries = []wvlib.BEntry{f("d", y), f("elsewhere/x.bin", x)}
+	case "dir->symlink-into-kept-dir-nested": // current -> v2, both with bin/game two levels down
+		old.Entries = []wvlib.BEntry{f("current/bin/game", x), f("current/bin/data", y), f("v2/bin/game", x), f("keep.bin", z)}
+		nw.Entries = []wvlib.BEntry{{Path: "current", Kind: 'l', Dest: "v2"}, f("v2/bin/game", x), f("v2/bin/data", y), f("keep.bin", z)}
+	case "file->dir-nested-own-rename": // f becomes a directory and lives on two levels down inside it
+		old.Entries = []wvlib.BEntry{f("f", x), f("keep.bin", z)}
+		nw.Entries = []wvlib.BEntry{f("f/a/b/inner.bin", x), f("f/a/copy.bin", x), f("keep.bin", z)}
 	case "dir->symlink-plain":
 		old.Entries = []wvlib.BEntry{f("d/x.bin", x), f("keep.bin", z)}
 		nw.Entries = []wvlib.BEntry{{Path: "d", Kind: 'l', Dest: "elsewhere"}, f("keep.bin", z)}
@@ -110,7 +120,8 @@ func clashPair(r *wvlib.Rng, shape string) (*wvlib.Build, *wvlib.Build) {
 
 // all eight failed until F8 (1)-(4), F25, F26 and F27 were repaired; they stay as regression shapes
 var clashShapes = []string{"dir->file-new", "dir->file-renamed", "file->dir-containing-own-rename", "dir->symlink-child-renamed-out",
-	"dir->symlink-into-kept-dir", "symlink->file-copy-of-its-target", "emptydir->file-copy", "file->symlink-file-renamed"}
+	"dir->symlink-into-kept-dir", "symlink->file-copy-of-its-target", "emptydir->file-copy", "file->symlink-file-renamed",
+	"dir->file-renamed-nested", "dir->symlink-into-kept-dir-nested", "file->dir-nested-own-rename"}
 var benignKindShapes = []string{"symlink->file", "file->symlink", "symlink->dir", "emptydir->file", "file->dir-not-source", "dir->symlink-plain", "temp-name-lookalike", "temp-name-lookalike-2"}
 
 func writeBuildListing(path string, c *tlc.Container, b *wvlib.Build) {
@@ -263,15 +274,15 @@ func runC02(env *Env) {
 	var cases []*C02Case
 	for _, sh := range append(append([]string{}, clashShapes...), benignKindShapes...) {
 		rp := 2
-		if strings.HasPrefix(sh, "temp-name") {
-			rp = 10 // which output gets which number depends on the map order
+		if strings.HasPrefix(sh, "temp-name") || strings.HasSuffix(sh, "-nested") || sh == "dir->file-renamed" {
+			rp = 10 // which output gets which number / which group is visited first depends on the map order
 		}
 		cases = append(cases, &C02Case{PairCase: PairCase{Seed: rng.Next()}, Clash: sh, Repeats: rp})
 	}
 	for i := 0; i < n; i++ {
 		cases = append(cases, &C02Case{PairCase: PairCase{Seed: rng.Next(), Opts: wvlib.PairOpts{MaxFiles: 6, Symlinks: true, SmallOnly: i%4 != 0}}, Optimized: i%5 == 3, Repeats: reps})
 	}
-	// pairs in which one or two paths change kind at random: correct whenever BenignKindChanges holds
+	// pairs in which one or two paths change kind at random: every one must commit correctly (theorem commit_correct)
 	nk := n / 2
 	for i := 0; i < nk; i++ {
 		cases = append(cases, &C02Case{PairCase: PairCase{Seed: rng.Next(), Opts: wvlib.PairOpts{MaxFiles: 5, Symlinks: true, SmallOnly: true, KindClash: true}}, Optimized: i%5 == 3, Repeats: reps})
